@@ -6,7 +6,7 @@ cd /verif
 git -C /repo status --short | grep -q . && { echo "/repo is dirty"; exit 2; }
 git -C /repo apply "$P" || { echo "patch does not apply"; exit 2; }
 SAVE=$(mktemp -d /tmp/trypatch.XXXXXX); cp -a evidence "$SAVE/evidence"; cp -a replays "$SAVE/replays" 2>/dev/null
-trap 'git -C /repo checkout -- .; rm -rf /verif/evidence /verif/replays; cp -a "$SAVE/evidence" /verif/evidence; [ -d "$SAVE/replays" ] && cp -a "$SAVE/replays" /verif/replays; rm -rf "$SAVE"; python3 /verif/gen/constants.py; python3 /verif/gen/sites.py; python3 /verif/gen/partial.py; python3 /verif/gen/api.py' EXIT
+trap 'git -C /repo checkout -- .; rm -rf /verif/evidence /verif/replays; cp -a "$SAVE/evidence" /verif/evidence; [ -d "$SAVE/replays" ] && cp -a "$SAVE/replays" /verif/replays; rm -rf "$SAVE"; python3 /verif/gen/constants.py; python3 /verif/gen/sites.py; python3 /verif/gen/partial.py; python3 /verif/gen/api.py; python3 /verif/gen/alts.py' EXIT
 for p in $PROPS; do
   out=$(./check $p 2>&1); rc=$?
   echo "$p rc=$rc :: $(echo "$out" | grep -E "^VIOLATION|INTERNAL" | head -1 | cut -c1-150)"
